@@ -1,6 +1,7 @@
 package main
 
 import (
+	"github.com/libsv/go-bk/crypto"
 	"bufio"
 	"encoding/hex"
 	"fmt"
@@ -69,6 +70,9 @@ func (e *emitter) run(op string, args ...string) string {
 
 // emit writes one protocol line: "<op> <args>\t<implementation output>"
 func (e *emitter) emit(op string, args string, impl string) {
+	if len(args)+len(impl) > 64<<20 {
+		panic(fmt.Sprintf("refusing to emit a %d-byte protocol line for %s (generator bug)", len(args)+len(impl), op))
+	}
 	e.count++
 	e.w.WriteString(op)
 	e.w.WriteByte(' ')
@@ -227,3 +231,5 @@ func mustHex(s string) []byte {
 	}
 	return b
 }
+
+func hash160(b []byte) []byte { return crypto.Hash160(b) }
